@@ -106,12 +106,12 @@ def lean_imports_closure(module):
 
 
 def run_audit(pid):
-    """`#print axioms` for every theorem of Thm/<pid>.lean -> {theorem: [axioms]}"""
+    """`#print axioms` for every theorem listed in Audit/<pid>.lean -> {theorem: [axioms]}"""
     rc, out = sh(['lake', 'env', 'lean', f'GmVerif/Audit/{pid}.lean'], cwd=LEAN, timeout=600)
     res = {}
-    for m in re.finditer(r"'([^']+)' depends on axioms: \[([^\]]*)\]", out):
+    for m in re.finditer(r"'(\S+)' depends on axioms: \[([^\]]*)\]", out):
         res[m.group(1)] = [a.strip() for a in m.group(2).replace('\n', ' ').split(',') if a.strip()]
-    for m in re.finditer(r"'([^']+)' does not depend on any axioms", out):
+    for m in re.finditer(r"'(\S+)' does not depend on any axioms", out):
         res[m.group(1)] = []
     return rc == 0, res, out
 
